@@ -100,15 +100,20 @@ def skip (env : Env) (ctx : Ctx) : Ctx :=
   else
     { ctx with lay := none }
 
-/-- `TokenIterator`: try recognizers in order, stop after a matched token flagged finish -/
-def tokenIter (env : Env) (pos : Pos) : List (Nat × Bool) → List Tok
-  | [] => []
-  | (k, fin) :: rest =>
+/-- `TokenIterator` (lexer.rs:99-155): try recognizers in order; stop after a matched token flagged
+    finish, and at a flagged terminal that does not match if anything matched before it (the flag
+    also marks the end of a priority group) -/
+def tokenIterAux (env : Env) (pos : Pos) : Bool → List (Nat × Bool) → List Tok
+  | _, [] => []
+  | matched, (k, fin) :: rest =>
     match env.recog k pos.pos with
     | some l =>
       let tk : Tok := ⟨k, (pos.pos, l), ⟨pos, posAfter (sliceOf env.input (pos.pos, l)) pos⟩⟩
-      tk :: (if fin then [] else tokenIter env pos rest)
-    | none => tokenIter env pos rest
+      tk :: (if fin then [] else tokenIterAux env pos true rest)
+    | none => if fin && matched then [] else tokenIterAux env pos matched rest
+
+def tokenIter (env : Env) (pos : Pos) (expected : List (Nat × Bool)) : List Tok :=
+  tokenIterAux env pos false expected
 
 /-- byte length of the UTF-8 character starting with byte `b` -/
 def utf8Len (b : Nat) : Nat :=
